@@ -138,44 +138,25 @@ def r2_mirrors(ctx):
             tv = "'type_variety': fiber.east_fiber" in ast.unparse(fa.node)
             ctx.check('R2.mirrors', f'{site(fa)} fibre type', tv, f'{CV}|fiber-type', 'the fibre type is not the row\'s fibre type')
         else:
-            # per-arm comparison of the operational dict and of the type dispatch
-            def arms(f, side):
-                out = {}
-                from .common import through_locals
-                fdefs = local_defs(f.node)
-                for n in walk_no_nested(through_locals(f.node, fdefs)):     # hoisted sub-expressions (a lower-cased type) written out
-                    if isinstance(n, ast.If):
-                        cur = n
-                        while isinstance(cur, ast.If):
-                            t = ast.unparse(cur.test)
-                            ops = {ast.unparse(s.targets[0]): ast.unparse(s.value) for s in cur.body if isinstance(s, ast.Assign)}
-                            out[t] = ops
-                            cur = cur.orelse[0] if len(cur.orelse) == 1 and isinstance(cur.orelse[0], ast.If) else None
-                        break
-                return out
-            aa, ab = arms(fa, 'east'), arms(fb, 'west')
-
-            def result_var(f):
-                r = [n for n in walk_no_nested(f.node) if isinstance(n, ast.Return)]
-                return r[-1].value.id if r and isinstance(r[-1].value, ast.Name) else None
-            ra, rb = result_var(fa), result_var(fb)
-
-            def norm(arms_, rv):
-                # stores into the returned dict, keyed by its literal key (the name of the local does not matter)
-                return {k: {x.replace(f'{rv}[', 'eqpt[', 1) if x.startswith(f'{rv}[') else x: y for x, y in v.items()} for k, v in arms_.items()}
-            aa, ab = norm(aa, ra), norm(ab, rb)
-            ma = {k.replace('east', 'west'): {x: y.replace('east', 'west') for x, y in v.items() if x != "eqpt['type']" or 'Fused' in y}
-                  for k, v in aa.items()}
-            mb = {k: {x: y for x, y in v.items() if x != "eqpt['type']" or 'Fused' in y} for k, v in ab.items()}
-            ctx.check('R2.mirrors', f'{site(fa)} / {site(fb)}', ma == mb and len(ma) == 3, f'{CV}|mirror|eqpt',
-                      'the east and west equipment builders differ by more than east <-> west (and where the default type is set)',
-                      _first_diff(str(ma), str(mb)))
-            opd = {'gain_target': 'node.east_amp_gain', 'delta_p': 'node.east_amp_dp', 'tilt_target': 'node.east_tilt_vs_wavelength',
-                   'out_voa': 'node.east_att_out', 'in_voa': 'node.east_att_in'}
-            ds = [n for n in ast.walk(fa.node) if isinstance(n, ast.Dict) and any(isinstance(k, ast.Constant) and k.value == 'gain_target' for k in n.keys)]
-            ok = len(ds) == 2 and all({k.value: ast.unparse(v) for k, v in zip(d.keys, d.values)} == opd for d in ds)
+            # case analysis on the amplifier type cell ('' / 'fused' / anything else): what each builder puts under each key of the
+            # element, whatever the arrangement of its branches (gscan/casedomain.py)
+            from .common import through_locals
+            from ..casedomain import tables, OTHER
+            ta = tables(through_locals(fa.node, local_defs(fa.node)), 'node.east_amp_type.lower()', ['', 'fused', OTHER])
+            tb = tables(through_locals(fb.node, local_defs(fb.node)), 'node.west_amp_type.lower()', ['', 'fused', OTHER])
+            ma = {c: {k: v.replace('east', 'west') for k, v in t.items()} for c, t in ta.items()}
+            ctx.check('R2.mirrors', f'{site(fa)} / {site(fb)}', ma == tb, f'{CV}|mirror|eqpt',
+                      'the east and west equipment builders differ by more than east <-> west: for some amplifier type one direction '
+                      'gets another element type, variety or operating point', _first_diff(str(ma), str(tb)))
+            opd = "{'gain_target': node.east_amp_gain, 'delta_p': node.east_amp_dp, 'tilt_target': node.east_tilt_vs_wavelength, " \
+                  "'out_voa': node.east_att_out, 'in_voa': node.east_att_in}"
+            ok = ta[''].get('operational') == opd and ta[OTHER].get('operational') == opd and 'operational' not in ta['fused'] and \
+                ta[''].get('type') == "'Edfa'" and ta[OTHER].get('type') == "'Edfa'" and ta['fused'].get('type') == "'Fused'" and \
+                ta['fused'].get('params') == "{'loss': 0}" and 'type_variety' not in ta[''] and 'type_variety' not in ta['fused'] and \
+                ta[OTHER].get('type_variety') == "f'{node.east_amp_type}'"
             ctx.check('R2.mirrors', f'{site(fa)} sheet columns -> operational', ok, f'{CV}|eqpt-operational',
-                      'amplifier settings of the row do not land on (gain_target, delta_p, tilt_target, out_voa, in_voa)')
+                      'amplifier settings of the row do not land on (gain_target, delta_p, tilt_target, out_voa, in_voa) of an Edfa of the '
+                      "named variety (no variety for an empty cell; 'fused' gives a Fused element with loss 0)", str(ta)[:300])
             for f, side in ((fa, 'east'), (fb, 'west')):
                 uid = [v for n in ast.walk(f.node) if isinstance(n, ast.Dict) for k, v in zip(n.keys, n.values)
                        if isinstance(k, ast.Constant) and k.value == 'uid']
